@@ -90,16 +90,29 @@ func cmdReplayRule(args []string) error {
 	}
 	env := &envStats{}
 	real := make([]*rules.Request, len(reqs))
+	rows, evals, mism, rejected, posExp := 0, 0, 0, 0, 0
 	for i := range reqs {
+		before := *env
 		real[i], err = reqs[i].build(env)
 		if err != nil {
 			return err
+		}
+		if env.ThirdFixed != before.ThirdFixed || env.HostMismatch != before.HostMismatch {
+			// the request the real constructor built differs from the one Request.tla derives for the same URLs: the
+			// rule is matched against the wrong third-party flag / hostnames whatever the rule says
+			mism++
+			rq := reqs[i]
+			got := rq.ThirdParty
+			if env.ThirdFixed != before.ThirdFixed {
+				got = !got
+			}
+			out.write(ruleMismatch{Fam: []string{"request"}, RuleText: "(any rule: request construction, third-party flag / hostnames)",
+				Request: rq.describe(), Expected: rq.ThirdParty, Got: got, Cause: "request-derivation", Req: &rq})
 		}
 	}
 	if env.PslMismatch > 0 {
 		return fmt.Errorf("the model's abstract PSL disagrees with the real Public Suffix List on %d request hosts", env.PslMismatch)
 	}
-	rows, evals, mism, rejected, posExp := 0, 0, 0, 0, 0
 	var samples []string
 	for _, rec := range recs {
 		if rec.Kind != "ROW" {
